@@ -35,7 +35,8 @@ pub enum WOp {
     Scr { ts: Option<Vec<u8>> },
     /// read whatever arrives for `ms`
     Poll { ms: u32 },
-    /// kind 0 invalid JSON, 1 binary junk, 2 wrong-length info hash, 3 deep nesting, 4 ping frame, 5 non-byte character in id
+    /// kind 0 invalid JSON, 1 binary junk, 2 wrong-length info hash, 3 deep nesting, 4 ping frame, 5 non-byte character in id,
+    /// 6 / 7 identifiers of 21 and 60 characters
     Bad { kind: u8 },
     /// orderly close frame, then the connection ends
     Close,
@@ -516,7 +517,10 @@ fn client_main(idx: usize, scn: Arc<Scn>, col: Arc<Mutex<Collected>>) {
                 }
             }
             WOp::Bad { kind } => {
-                let msg = match kind % 6 {
+                let msg = match kind % 8 {
+                    // identifiers longer than 20 characters
+                    6 => Message::text(json!({"action": "announce", "info_hash": format!("{}x", id_string(&info_hash(0))), "peer_id": me, "numwant": 0}).to_string()),
+                    7 => Message::text(json!({"action": "scrape", "info_hash": [id_string(&info_hash(0)).repeat(3)]}).to_string()),
                     0 => Message::text("{\"action\": \"announce\", \"info_hash\": ".to_string()),
                     1 => Message::binary(vec![0u8, 159, 146, 150, 255, 0, 1]),
                     2 => Message::text(json!({"action": "announce", "info_hash": "short", "peer_id": me, "numwant": 0}).to_string()),
@@ -713,7 +717,7 @@ impl Harness for WsSys {
                     4 => WOp::BogusAnswer { t: r.below(n_torrents as u64) as u8, to: r.below(n_conns as u64) as u8, oid: r.below(5) as u8 },
                     5 => WOp::Scr { ts: if r.chance(80) { None } else if r.chance(80) { Some(vec![]) } else { Some((0..r.range(1, 4)).map(|_| r.below(n_torrents as u64 + 1) as u8).collect()) } },
                     6 => WOp::Poll { ms: *r.pick(&[50u32, 300, 1200]) },
-                    7 => WOp::Bad { kind: r.below(6) as u8 },
+                    7 => WOp::Bad { kind: r.below(8) as u8 },
                     8 => WOp::Close,
                     _ => WOp::Reset,
                 };
